@@ -449,10 +449,14 @@ Inductive op :=
 | OpQ (q : question)
 | OpR (r : rrecord)
 | OpOpt (udp : N) (opts : list (N * N * bytes))
-| OpGoto (k : N)          (* .question() / .answer() / .authority() / .additional() *)
-| OpBuilder               (* .builder() followed by .question() *)
-| OpRewind
+| OpNext                  (* QuestionBuilder::answer / AnswerBuilder::authority / AuthorityBuilder::additional *)
+| OpBack                  (* AdditionalBuilder::authority / AuthorityBuilder::answer / AnswerBuilder::question *)
+| OpRewind                (* <Section>Builder::rewind *)
 | OpLimit (l : option N). (* set_push_limit / clear_push_limit *)
+(* every other conversion is, in the code, a composition of these:
+   x.additional() = x.answer().authority().additional(), x.question() from
+   additional = authority().answer().question(), builder() = question() then
+   QuestionBuilder::rewind *)
 
 Definition set_sec (s : bstate) (k : N) : bstate :=
   mkB (b_w s) (b_limit s) (b_qd s) (b_an s) (b_ns s) (b_ar s) k (b_s1 s) (b_s2 s) (b_s3 s).
@@ -472,35 +476,19 @@ Definition rewind (c : tcfg) (s : bstate) : outcome bstate :=
   | _ => OutOfFuel
   end.
 
-(* conversions: forward = XBuilder::new (start = current length), backward =
-   rewind of every section above the destination *)
-Fixpoint goto (fuel : nat) (c : tcfg) (s : bstate) (k : N) : outcome bstate :=
-  match fuel with
-  | O => Ok s
-  | S f =>
-      if b_sec s =? k then Ok s
-      else if b_sec s <? k then
-        let n := b_sec s + 1 in
-        goto f c (set_sec (set_start s n (mlen (w_buf (b_w s)))) n) k
-      else
-        do s1 <- rewind c s;
-        goto f c (set_sec s1 (b_sec s - 1)) k
-  end.
-
 Definition step (c : tcfg) (s : bstate) (o : op) : bstate * rword :=
   match o with
   | OpQ q => if b_sec s =? 0 then mb_push c s (compose_question c q) else (s, RNone)
   | OpR r => if b_sec s =? 0 then (s, RNone) else mb_push c s (compose_record c r)
   | OpOpt udp opts => if b_sec s =? 3 then mb_push c s (compose_opt c udp opts) else (s, RNone)
-  | OpGoto k =>
-      match goto 4 c s (N.min k 3) with
-      | Ok s' => (s', RNone) | Panic site => (s, RPanic site) | _ => (s, RFuel) end
-  | OpBuilder =>
-      match goto 4 c s 0 with
-      | Ok s1 => match rewind c s1 with
-                 | Ok s2 => (s2, RNone) | Panic site => (s, RPanic site) | _ => (s, RFuel) end
-      | Panic site => (s, RPanic site) | _ => (s, RFuel)
-      end
+  | OpNext =>        (* XBuilder::new: start = current length; no octets change *)
+      if b_sec s <? 3
+      then (set_sec (set_start s (b_sec s + 1) (mlen (w_buf (b_w s)))) (b_sec s + 1), RNone)
+      else (s, RNone)
+  | OpBack =>        (* rewind the current section, then hand out the builder below *)
+      if b_sec s =? 0 then (s, RNone) else
+      match rewind c s with
+      | Ok s' => (set_sec s' (b_sec s - 1), RNone) | Panic site => (s, RPanic site) | _ => (s, RFuel) end
   | OpRewind =>
       match rewind c s with
       | Ok s' => (s', RNone) | Panic site => (s, RPanic site) | _ => (s, RFuel) end
@@ -551,9 +539,6 @@ Fixpoint opts_bytes (opts : list (N * N * bytes)) : bytes :=
 Definition opt_record (udp : N) (opts : list (N * N * bytes)) : rrecord :=
   mkR [] 41 udp 0 true [RBytes (opts_bytes opts)].
 
-Definition acc_clear_from (a : acc) (k : N) : acc :=   (* drop sections with index >= k *)
-  mkAcc (if k <=? 0 then [] else a_q a) (if k <=? 1 then [] else a_an a)
-        (if k <=? 2 then [] else a_ns a) (if k <=? 3 then [] else a_ar a).
 Definition acc_clear_sec (a : acc) (k : N) : acc :=
   mkAcc (if k =? 0 then [] else a_q a) (if k =? 1 then [] else a_an a)
         (if k =? 2 then [] else a_ns a) (if k =? 3 then [] else a_ar a).
@@ -568,8 +553,7 @@ Definition acc_step (sec : N) (a : acc) (o : op) (w : rword) : acc :=
   | OpQ q, ROk => mkAcc (a_q a ++ [q]) (a_an a) (a_ns a) (a_ar a)
   | OpR r, ROk => acc_add_r a sec r
   | OpOpt udp opts, ROk => acc_add_r a sec (opt_record udp opts)
-  | OpGoto k, RNone => if N.min k 3 <? sec then acc_clear_from a (N.min k 3 + 1) else a
-  | OpBuilder, RNone => acc0
+  | OpBack, RNone => if sec =? 0 then a else acc_clear_sec a sec
   | OpRewind, RNone => acc_clear_sec a sec
   | _, _ => a
   end.
